@@ -1,6 +1,7 @@
 #ifndef AVEL_VERIF_ALLOC_HPP
 #define AVEL_VERIF_ALLOC_HPP
 #include <avel/Aligned_allocator.hpp>
+#include <memory>
 struct avel_verif_b3 { unsigned char b[3]; };
 struct avel_verif_b16 { unsigned char b[16]; };
 struct avel_verif_b64 { unsigned char b[64]; };
